@@ -520,8 +520,9 @@ func execChess(args []string) string {
 			}
 			hist = append(hist, fmt.Sprintf("%016x", q.ZobristHash))
 		}
-		return fmt.Sprintf("res=ok dump=%s fen=%s hist=%s fullhash=%016x p.hash=%s p.shape=%s",
-			dumpPos(q), fenField(q.ToFen()), strings.Join(hist, ","), q.VerifFullHash(), b2s(q.VerifFullHash() == q.ZobristHash), b2s(checkShape(q)))
+		board := strings.Join(strings.Fields(q.ToFen())[:4], "_")
+		return fmt.Sprintf("res=ok dump=%s fen=%s board=%s hist=%s fullhash=%016x p.hash=%s p.shape=%s",
+			dumpPos(q), fenField(q.ToFen()), board, strings.Join(hist, ","), q.VerifFullHash(), b2s(q.VerifFullHash() == q.ZobristHash), b2s(checkShape(q)))
 	case "null":
 		p, ok := posFromArg(args[1])
 		if !ok {
@@ -752,6 +753,21 @@ func chessOps(o *Out, seed uint64, n int, tier string, corpusPath string) {
 			}
 		}
 	}
+	// long games (C03 quantifies over games up to 600 plies): beyond the width of the uint8 move counters, far inside the
+	// history array; the board part of the state is compared with the spec, the counters with the model (they wrap)
+	nlong := 2
+	if heavy {
+		nlong = 60
+	}
+	for g, tries := 0, 0; g < nlong && tries < 10*nlong; tries++ {
+		moves := longGame(rng)
+		if len(moves) > 255 {
+			o.Run("play startpos " + strings.Join(moves, " "))
+			o.Stat("long_games")
+			o.StatN("game_plies", len(moves))
+			g++
+		}
+	}
 	depth, np := 3, 4
 	if heavy {
 		depth, np = 4, 12
@@ -866,4 +882,24 @@ func edgeOps(o *Out, seed uint64, n int) {
 		}
 	}
 	_ = count
+}
+
+// longGame: a random legal game from the start position of 260..600 plies (shorter if it ends), preferring quiet piece moves so that it lasts
+func longGame(rng *Rng) []string {
+	p := *position.New()
+	var moves []string
+	target := 260 + rng.Intn(341)
+	for len(moves) < target {
+		lms := legalMoves(&p)
+		if len(lms) == 0 {
+			break
+		}
+		pick := lms[rng.Intn(len(lms))]
+		for try := 0; try < 3 && (p.PiecesBoard[pick.m.GetTargetSquare()] != types.NO_PIECE || p.PiecesBoard[pick.m.GetSourceSquare()].Type() == types.PAWN); try++ {
+			pick = lms[rng.Intn(len(lms))]
+		}
+		moves = append(moves, pick.m.String())
+		p = pick.pos
+	}
+	return moves
 }
